@@ -30,7 +30,13 @@ SERVER_BIN = os.path.join(vlib.CACHE, "target-server", "debug", "kyrodb_server")
 
 def regenerate(ctx):
     """Build and run the translator. Returns (ok, report-or-None, text)."""
-    ok, log = vlib.cargo_build(["translator"])
+    # one cargo invocation for both binaries (one wait on the shared build lock); fall back to
+    # building the translator alone when the driver (which links the engine) does not build
+    ok, log = vlib.cargo_build(["translator", "c18"])
+    ctx.both_built = ok
+    if not ok:
+        ok, log2 = vlib.cargo_build(["translator"])
+        log += "\n--- translator alone ---\n" + log2
     ctx.log("cargo_translator.log", log)
     if not ok:
         return False, None, "translator build failed:\n" + log[-2000:]
@@ -123,7 +129,10 @@ def run(ctx):
         broken.append({"kind": "proof-obligations", "failed": ctx.failed_obligations})
 
     # ---- 3. the matrix on the real code
-    ok, log = vlib.cargo_build(["c18"])
+    if getattr(ctx, "both_built", False):
+        ok, log = True, "built together with the translator (see cargo_translator.log)"
+    else:
+        ok, log = vlib.cargo_build(["c18"])
     ctx.log("cargo.log", log)
     if not ok:
         ctx.say("harness build failed")
@@ -147,6 +156,8 @@ def run(ctx):
             args += ["--replay", ctx.replay]
         else:
             ctx.notes.append("replay file holds no configuration row (a no-failing-input replay): running the full check")
+    if ctx.tier == "thorough":
+        args += ["--variant-every", "1"]
     have_server = os.path.exists(SERVER_BIN)
     if ctx.tier == "thorough" and have_server and replay_case is None:
         args += ["--server-samples", "30"]
@@ -161,7 +172,11 @@ def run(ctx):
     # ---- 4. correspondence inside coqc (only meaningful against a freshly regenerated, compiled model)
     bad, evaluated, coq_err = [], 0, []
     model_vo = os.path.join(vlib.COQ, "gen", "Config_gen.vo")
-    if os.path.exists(model_vo):
+    model_v = os.path.join(vlib.COQ, "gen", "Config_gen.v")
+    fresh = os.path.exists(model_vo) and os.path.exists(model_v) and os.path.getmtime(model_vo) >= os.path.getmtime(model_v)
+    if not fresh:
+        coq_err.append({"shard": -1, "rc": -1, "out": "gen/Config_gen.vo is missing or older than the regenerated gen/Config_gen.v (the model did not compile)"})
+    else:
         shards = [open(os.path.join(out, "cases_%d.v" % i)).read() for i in range(summ["shards"])]
         res = vlib.coq_eval("C18", shards)
         for i, (rc, o) in enumerate(res):
@@ -172,8 +187,6 @@ def run(ctx):
             for pos in vlib.parse_numbers(tags["bad"].split(":")[0]):
                 bad.append((i, pos))
             evaluated += vlib.parse_numbers(tags["count"].split(":")[0])[0]
-    else:
-        coq_err.append({"shard": -1, "rc": -1, "out": "gen/Config_gen.vo does not exist (model did not compile)"})
 
     ctx.say("coqc evaluated %d rows in %d shards: %d disagree, %d shard errors" % (evaluated, summ["shards"], len(bad), len(coq_err)))
     # ---- 5. thorough: the real binary on sampled rejected rows
@@ -186,7 +199,7 @@ def run(ctx):
         "distinct_nontrivial": summ["nontrivial"],
         "exhaustive": replay_case is None,
         "rule": "the FULL cross product environment name {production,pilot,benchmark,'',staging} x fsync {none,data_only,full} x snapshot interval {0,>0} x recovery {strict,best_effort} x cache strategy {lru,learned,abtest} x auth x rate limit x observability auth {disabled,metrics_and_slo,all} x fresh-start flag x TLS x gRPC bind {loopback,non-loopback} x HTTP bind {unset,loopback,non-loopback} "
-                "on the real KyroDbConfig::validate (KyroDbConfig::default() with the fields set, every other setting valid), each row compared in coqc with Config_gen.validate_raw; the same matrix again under 14 case/whitespace variants and near-misses of the environment name (direct oracle + agreement with the canonical name; a seeded 1/60 sample also compared in coqc). "
+                "on the real KyroDbConfig::validate (KyroDbConfig::default() with the fields set, every other setting valid), each row compared in coqc with Config_gen.validate_raw; the same matrix again under 14 case/whitespace variants and near-misses of the environment name (direct oracle + agreement with the canonical name; a seeded 1/60 sample of these rows (all of them in the thorough tier) is also compared in coqc). "
                 "Rows are distinct by construction. A row is non-trivial when an environment-dependent safety guard decides its verdict: a production/pilot row that is rejected although the same settings are accepted under benchmark, or a production/pilot row that is accepted and has a single-setting neighbour that is rejected while accepted under benchmark.",
         "samples": summ["samples"][:3],
         "histogram": summ.get("histogram", {}),
